@@ -47,6 +47,7 @@ class Ctx:
     def __init__(self, spec):
         self.spec = spec
         self.types = dict(spec["params"])  # name -> type
+        self.types.update(spec.get("extra_types", {}))
         self.monadic = spec.get("raises", False)
         self.rename = spec.get("rename", {})
 
@@ -166,6 +167,9 @@ def tr_expr(e, cx):
             return (f"({paren(lt)} + {paren(rt)})", "time", False)
         raise Untranslatable(f"+ on {lty},{rty}")
     if isinstance(e, ast.Attribute):
+        if isinstance(e.value, ast.Name) and e.value.id == "self" and ("self." + e.attr) in cx.rename \
+                and ("self." + e.attr) in cx.types:
+            return (cx.name("self." + e.attr), cx.types["self." + e.attr], False)
         # x.dt
         if e.attr == "dt":
             t, ty, m = tr_expr(e.value, cx)
@@ -218,8 +222,29 @@ def cmp_text(lt, lty, rt, rty, sym, op):
     raise Untranslatable("cmp")
 
 
+def dotted(f):
+    if isinstance(f, ast.Name):
+        return f.id
+    if isinstance(f, ast.Attribute):
+        b = dotted(f.value)
+        return b + "." + f.attr if b else None
+    return None
+
+
 def tr_call(e, cx):
     f = e.func
+    dn = dotted(f)
+    if dn in ("posixpath.normpath", "os.path.normpath") and len(e.args) == 1:
+        a, aty, am = tr_expr(e.args[0], cx)
+        if aty != "str" or am:
+            raise Untranslatable("normpath arg")
+        return (f"(Py.Path.normpath {paren(a)})", "str", False)
+    if dn in ("posixpath.join", "os.path.join") and len(e.args) == 2:
+        a, aty, am = tr_expr(e.args[0], cx)
+        b, bty, bm = tr_expr(e.args[1], cx)
+        if aty != "str" or bty != "str" or am or bm:
+            raise Untranslatable("join args")
+        return (f"(Py.Path.join {paren(a)} {paren(b)})", "str", False)
     if isinstance(f, ast.Attribute):
         recv_t, recv_ty, recv_m = tr_expr(f.value, cx) if not (
             isinstance(f.value, ast.Name) and f.value.id in ("comp",) and f.attr == "get") else (None, None, None)
@@ -250,6 +275,8 @@ def tr_call(e, cx):
             if f.attr == "split":
                 return (f"(Py.Str.splitOn {chararg()} {paren(recv_t)})", "list:str", False)
             if f.attr in ("strip", "lstrip", "rstrip"):
+                if cx.spec.get("pathctx") and chararg() == "'/'" and f.attr in ("lstrip", "rstrip"):
+                    return (f"(Py.Path.{f.attr}Slash {paren(recv_t)})", "str", False)
                 return (f"(Py.Str.{f.attr} {chararg()} {paren(recv_t)})", "str", False)
             if f.attr in ("startswith", "endswith"):
                 a, aty, am = tr_expr(e.args[0], cx)
@@ -410,6 +437,9 @@ LEAN_TY = {"str": "List Char", "ostr": "Option (List Char)", "bool": "Bool", "ti
            "tzify": "Py.TVal → Int", "oprop": "Option Py.TVal", "tval": "Py.TVal"}
 
 SPECS = [
+    dict(module="PathMap", file="xandikos/web.py", func="_map_to_file_path", lean="map_to_file_path",
+         params=[("self", "self"), ("relpath", "str")], returns="str", pathctx=True,
+         rename={"self.path": "root"}, extra_types={"self.path": "str"}, lean_params=[("root", "str"), ("relpath", "str")]),
     dict(module="Etag", file="xandikos/webdav.py", func="etag_matches", lean="etag_matches",
          params=[("condition", "str"), ("actual_etag", "ostr")], returns="bool"),
     dict(module="Collation", file="xandikos/collation.py", func="_match", lean="match_",
@@ -448,7 +478,7 @@ def translate_one(spec, repo=REPO):
         raise Untranslatable(f"signature changed: {argnames} != {want}")
     cx = Ctx(spec)
     body = tr_block(fn.body, cx, 1)
-    params = " ".join(f"({cx.name(n)} : {LEAN_TY[t]})" for n, t in spec["params"])
+    params = " ".join(f"({cx.name(n)} : {LEAN_TY[t]})" for n, t in spec.get("lean_params", spec["params"]))
     ret = LEAN_TY[spec["returns"]]
     if spec.get("raises"):
         ret = f"Except Py.PyErr {ret}"
@@ -524,6 +554,7 @@ HEADER = """/-
   Regenerated on every check run; the tie modules prove these equal to the hand-written model.
 -/
 import Xandikos.Py.Prelude
+import Xandikos.Py.Path
 
 namespace Xandikos.Generated
 open Xandikos
